@@ -643,7 +643,18 @@ func (i *IRCServer) GetSessions() map[robust.Id]Session {
 	defer i.sessionsMu.RUnlock()
 	result := make(map[robust.Id]Session, len(i.sessions))
 	for id, session := range i.sessions {
-		result[id] = *session
+		// Copy the maps, too: the status handler reads the result without
+		// holding any lock.
+		s := *session
+		s.Channels = make(map[lcChan]bool, len(session.Channels))
+		for channel, joined := range session.Channels {
+			s.Channels[channel] = joined
+		}
+		s.invitedTo = make(map[lcChan]bool, len(session.invitedTo))
+		for channel, invited := range session.invitedTo {
+			s.invitedTo[channel] = invited
+		}
+		result[id] = s
 	}
 	return result
 }
